@@ -59,7 +59,7 @@ theorem inv_readM {s : State} {i : Nat} {th : Th} {a : Abs} {K : Prog}
         { th with prog := K, mv := s.sh.m, hb := (mkAcc i .m false false s.sh).id :: th.hb } a := by
       apply hok.read_step (sh' := s.sh.record th.hb (mkAcc i .m false false s.sh))
         (th' := { th with prog := K, mv := s.sh.m, hb := (mkAcc i .m false false s.sh).id :: th.hb })
-        (acc := mkAcc i .m false false s.sh) rfl rfl rfl rfl rfl rfl rfl rfl rfl
+        (acc := mkAcc i .m false false s.sh) rfl rfl rfl rfl rfl rfl rfl rfl rfl rfl
       · intro x hx; exact List.mem_cons_of_mem _ hx
       · rfl
       · intro _; exact hG.m
@@ -67,7 +67,7 @@ theorem inv_readM {s : State} {i : Nat} {th : Th} {a : Abs} {K : Prog}
       · exact viewOK_congr hok.view rfl rfl rfl
     exact { h1 with mread := fun _ => hG.m, know := h1.know }
   · intro j thj aj _ _ hj
-    exact hj.frame_read (sh' := s.sh.record th.hb (mkAcc i .m false false s.sh)) (acc := mkAcc i .m false false s.sh) rfl rfl rfl rfl rfl rfl rfl rfl
+    exact hj.frame_read (sh' := s.sh.record th.hb (mkAcc i .m false false s.sh)) (acc := mkAcc i .m false false s.sh) rfl rfl rfl rfl rfl rfl rfl rfl rfl
 
 /-! ### atomic load of t -/
 
@@ -115,7 +115,7 @@ theorem inv_loadT {s : State} {i : Nat} {th : Th} {a a' : Abs} {K : Prog}
         rw [hk] at hkn
         obtain ⟨v, g, h1, h2, h3, h4, h5⟩ := hkn
         refine { hW := hok.hW, hR := hok.hR, lkHeld := hok.lkHeld, wlw := hok.wlw, wlH := hok.wlH,
-                 wpH := hok.wpH, nofault := hok.nofault, mread := hok.mread, lv := hok.lv, tvok := htvok,
+                 wpH := hok.wpH, wcH := hok.wcH, nofault := hok.nofault, mread := hok.mread, lv := hok.lv, tvok := htvok,
                  know := ?_, view := hview _ rfl rfl rfl }
         unfold KnowOK
         rw [hk]
@@ -127,7 +127,7 @@ theorem inv_loadT {s : State} {i : Nat} {th : Th} {a a' : Abs} {K : Prog}
         · exact hsub _ (h5 b hb hbw)
       · cases habs
         refine { hW := hok.hW, hR := hok.hR, lkHeld := ?_, wlw := hok.wlw, wlH := hok.wlH,
-                 wpH := hok.wpH, nofault := hok.nofault, mread := hok.mread, lv := hok.lv, tvok := htvok,
+                 wpH := hok.wpH, wcH := hok.wcH, nofault := hok.nofault, mread := hok.mread, lv := hok.lv, tvok := htvok,
                  know := ?_, view := hview _ rfl rfl rfl }
         · intro h
           simp only [Bool.or_eq_true] at h
@@ -144,6 +144,6 @@ theorem inv_loadT {s : State} {i : Nat} {th : Th} {a a' : Abs} {K : Prog}
             · simp [mkAcc] at hbw
             · exact List.mem_append_left _ (hG.hbT hv b hb hbw)
   · intro j thj aj _ _ hj
-    exact hj.frame_read (sh' := s.sh.record th.hb (mkAcc i .t false true s.sh)) (acc := mkAcc i .t false true s.sh) rfl rfl rfl rfl rfl rfl rfl rfl
+    exact hj.frame_read (sh' := s.sh.record th.hb (mkAcc i .t false true s.sh)) (acc := mkAcc i .t false true s.sh) rfl rfl rfl rfl rfl rfl rfl rfl rfl
 
 end SonicSpec.RW
